@@ -145,7 +145,7 @@ def run(tier):
             for e in ref_tc.get(c["id"], []):
                 if e[0] == "typecheck":
                     kinds["tc_errors"] += len(e[1]["errors"])
-                if e[0] == "lint":
+                if e[0] in ("lint", "lint_names"):
                     kinds["lints"] += len(e[1])
     rep.coverage = {
         "evaluations": compared,
